@@ -389,7 +389,8 @@ def aggregate_copy_rule(c, chk, ex):
                             # or the copy's field cleared before the release
                             re_src = any(x.kind == 'store' and x.addr[0] == 'fld' and x.addr[3] == fld and sym.norm(x.addr[1]) == sym.norm(src)
                                          for x in evs[ci + 1:j])
-                            clr_dst = any(x.kind == 'store' and x.addr[0] == 'fld' and x.addr[3] == fld and x.addr[1] == dst and x.val == sym.C0
+                            # the copy's member was cleared or given another value since the copy was taken
+                            clr_dst = any(x.kind == 'store' and x.addr[0] == 'fld' and x.addr[3] == fld and x.addr[1] == dst
                                           for x in evs[ci + 1:j])
                             if not (re_src or clr_dst):
                                 chk.fail('R7.4', 'shared-owner:%s:%s' % (f.name, fld), c.where(e.ins),
